@@ -442,6 +442,17 @@ Proof.
   destruct (r_wrote (g_rec g)) eqn:Ew; rsimp; auto.
 Qed.
 
+(* the decision: no upstream Content-Encoding, and the expression on the COMPLETE first value of
+   Content-Type -- parameters, spacing and case as the upstream wrote them, not a part of it *)
+Lemma decision_uses_full_content_type c g : is_1xx c = false -> g_sel g = None ->
+  g_sel (grw_step (WriteHeader c) g)
+  = Some (beq (hget (r_hdr (g_rec g)) H_CE) [] && ctm (hget (r_hdr (g_rec g)) H_CT)).
+Proof.
+  intros Hx Hs. unfold Gzip.grw_step, Gzip.grw_write_header. rewrite Hx.
+  unfold Gzip.grw_decide_write_header. rewrite Hs. unfold Gzip.is_compressable.
+  destruct (beq (hget (r_hdr (g_rec g)) H_CE) []); [destruct (ctm (hget (r_hdr (g_rec g)) H_CT))|]; reflexivity.
+Qed.
+
 (* the first NON-informational WriteHeader, or the first Write, decides (and finalises the header) *)
 Lemma first_call_decides o g :
   (match o with WriteHeader c => is_1xx c = false | Write _ => True | _ => False end) ->
@@ -641,6 +652,17 @@ Example early_hints_repaired : forall sniff,
   o_fed res = Some (bs "hello") /\ o_code res = 200
   /\ hvals (o_hdr res) H_CE = Some [GZIP] /\ hvals (o_hdr res) H_CL = None
   /\ map fst (o_info res) = [103].
+Proof. intros sniff. vm_compute. repeat split; reflexivity. Qed.
+
+Lemma hget_first h k v vs : hvals h k = Some (v :: vs) -> hget h k = v.
+Proof. unfold hget. intros ->. reflexivity. Qed.
+
+(* an expression that excludes parameters (here: exactly "text/plain") does not match a type that
+   carries one; cutting the value at ";" before matching would compress the first response too *)
+Example parameters_are_matched : forall sniff,
+  let run ct := o_fed (handler sniff (beq (bs "text/plain")) [] [] [bs "gzip"] [SetHeader H_CT (bs ct); Write (bs "hello")]) in
+  run "text/plain; charset=utf-8"%string = None /\ run "text/plain ; q"%string = None /\ run "TEXT/PLAIN"%string = None
+  /\ run "text/plain"%string = Some (bs "hello").
 Proof. intros sniff. vm_compute. repeat split; reflexivity. Qed.
 
 (* non-vacuity: a response that is compressed, one that is not, and requests on the RFC domain *)
